@@ -78,6 +78,7 @@ impl<T> Vec<T> {
     /// Returns the number of elements in the vector.
     #[inline]
     pub fn count(&self) -> u32 {
+        verif_point!(VecBeforeCountLoad);
         self.inflight
             .load(Ordering::Acquire)
             .min(MAX_ENTRIES as u64) as u32
@@ -92,6 +93,7 @@ impl<T> Vec<T> {
     pub unsafe fn get_unchecked(&self, index: u32) -> Item<'_, T> {
         let location = Location::of(index);
 
+        verif_point!(VecGetBeforeBucketLoad);
         unsafe {
             let entries = self
                 .buckets
@@ -104,6 +106,7 @@ impl<T> Vec<T> {
             // thread synchronization (essentially acting as a memory barrier)
             // since the caller must only guarantee that he has observed active on any thread
             // but the current thread might still have an old value cached (although unlikely)
+            verif_point!(VecGetBeforeActiveLoad);
             let _ = (*entry).active.load(Ordering::Acquire);
             Entry::read(entry, self.columns)
         }
@@ -113,6 +116,7 @@ impl<T> Vec<T> {
     pub fn get(&self, index: u32) -> Option<Item<'_, T>> {
         let location = Location::of(index);
 
+        verif_point!(VecGetBeforeBucketLoad);
         unsafe {
             // safety: `location.bucket` is always in bounds
             let entries = self
@@ -129,6 +133,7 @@ impl<T> Vec<T> {
             // safety: `location.entry` is always in bounds for it's bucket
             let entry = Bucket::<T>::get(entries, location.entry, self.columns);
 
+            verif_point!(VecGetBeforeActiveLoad);
             // safety: the entry is active
             (*entry)
                 .active
@@ -139,7 +144,9 @@ impl<T> Vec<T> {
 
     /// Appends an element to the back of the vector.
     pub fn push(&self, value: T, fill_columns: impl FnOnce(&T, &mut [Utf32String])) -> u32 {
+        verif_point!(VecBeforeReserve);
         let index = self.inflight.fetch_add(1, Ordering::Release);
+        verif_point!(VecAfterReserve);
         // the inflight counter is a `u64` to catch overflows of the vector'scapacity
         let index: u32 = index.try_into().expect("overflowed maximum capacity");
         let location = Location::of(index);
@@ -153,6 +160,7 @@ impl<T> Vec<T> {
 
         // safety: `location.bucket` is always in bounds
         let bucket = unsafe { self.buckets.get_unchecked(location.bucket as usize) };
+        verif_point!(VecBeforeBucketLoad);
         let mut entries = bucket.entries.load(Ordering::Acquire);
 
         // the bucket has not been allocated yet
@@ -176,8 +184,10 @@ impl<T> Vec<T> {
             }
             fill_columns(&value, Entry::matcher_cols_mut(entry, self.columns));
             (*entry).slot.get().write(MaybeUninit::new(value));
+            verif_point!(VecBeforeActiveStore);
             // let other threads know that this entry is active
             (*entry).active.store(true, Ordering::Release);
+            verif_point!(VecAfterActiveStore);
         }
 
         index
@@ -200,6 +210,7 @@ impl<T> Vec<T> {
             return;
         }
 
+        verif_point!(VecBeforeReserve);
         // Reserve all indices at once
         let start_index: u32 = self
             .inflight
@@ -207,6 +218,7 @@ impl<T> Vec<T> {
             .try_into()
             .expect("overflowed maximum capacity");
 
+        verif_point!(VecAfterReserve);
         // Compute first and last locations
         let start_location = Location::of(start_index);
         let end_location = Location::of(start_index + count);
@@ -223,6 +235,7 @@ impl<T> Vec<T> {
         }
 
         let mut bucket = unsafe { self.buckets.get_unchecked(start_location.bucket as usize) };
+        verif_point!(VecBeforeBucketLoad);
         let mut entries = bucket.entries.load(Ordering::Acquire);
         if entries.is_null() {
             entries = Vec::get_or_alloc(
@@ -246,6 +259,7 @@ impl<T> Vec<T> {
             if location.entry == 0 && i != 0 {
                 // safety: `location.bucket` is always in bounds
                 bucket = unsafe { self.buckets.get_unchecked(location.bucket as usize) };
+                verif_point!(VecBeforeBucketLoad);
                 entries = bucket.entries.load(Ordering::Acquire);
 
                 if entries.is_null() {
@@ -266,7 +280,9 @@ impl<T> Vec<T> {
                 }
                 fill_columns(&v, Entry::matcher_cols_mut(entry, self.columns));
                 (*entry).slot.get().write(MaybeUninit::new(v));
+                verif_point!(VecBeforeActiveStore);
                 (*entry).active.store(true, Ordering::Release);
+                verif_point!(VecAfterActiveStore);
             }
         }
     }
@@ -274,6 +290,7 @@ impl<T> Vec<T> {
     /// race to initialize a bucket
     fn get_or_alloc(bucket: &Bucket<T>, len: u32, cols: u32) -> *mut Entry<T> {
         let entries = unsafe { Bucket::alloc(len, cols) };
+        verif_point!(VecBeforeAllocCas);
         match bucket.entries.compare_exchange(
             ptr::null_mut(),
             entries,
@@ -292,6 +309,7 @@ impl<T> Vec<T> {
     /// the iterator is deterministically sized and will not grow
     /// as more elements are pushed
     pub unsafe fn snapshot(&self, start: u32) -> Iter<'_, T> {
+        verif_point!(VecBeforeSnapshotLoad);
         let end = self
             .inflight
             .load(Ordering::Acquire)
@@ -309,6 +327,7 @@ impl<T> Vec<T> {
     /// the iterator is deterministically sized and will not grow
     /// as more elements are pushed
     pub unsafe fn par_snapshot(&self, start: u32) -> ParIter<'_, T> {
+        verif_point!(VecBeforeSnapshotLoad);
         let end = self
             .inflight
             .load(Ordering::Acquire)
@@ -369,6 +388,7 @@ impl<'v, T> Iterator for Iter<'v, T> {
         debug_assert!(self.end as u64 <= self.vec.inflight.load(Ordering::Relaxed));
 
         loop {
+            verif_point!(IterBeforeBucketLoad);
             let entries = unsafe {
                 self.vec
                     .buckets
@@ -392,6 +412,7 @@ impl<'v, T> Iterator for Iter<'v, T> {
                 self.location.entry += 1;
                 self.idx += 1;
 
+                verif_point!(IterBeforeActiveLoad);
                 let entry = unsafe {
                     (*entry)
                         .active
